@@ -326,7 +326,8 @@ def qdist(q1: np.ndarray, q2: np.ndarray) -> float:
         return min(np.linalg.norm(q1-q2), np.linalg.norm(q1+q2))
     q1 /= np.linalg.norm(q1, axis=1)[:, None]
     q2 /= np.linalg.norm(q2, axis=1)[:, None]
-    return np.r_[[np.linalg.norm(q1-q2, axis=1)], [np.linalg.norm(q1+q2, axis=1)]].min(axis=0)
+    same = np.all(np.isclose(q1, q2), axis=1) | np.all(np.isclose(-q1, q2), axis=1)   # As in the single-pair branch
+    return np.where(same, 0.0, np.r_[[np.linalg.norm(q1-q2, axis=1)], [np.linalg.norm(q1+q2, axis=1)]].min(axis=0))
 
 def qeip(q1: np.ndarray, q2: np.ndarray) -> float:
     """
@@ -383,7 +384,8 @@ def qeip(q1: np.ndarray, q2: np.ndarray) -> float:
         return 1.0-abs(q1@q2)
     q1 /= np.linalg.norm(q1, axis=1)[:, None]
     q2 /= np.linalg.norm(q2, axis=1)[:, None]
-    return 1.0-abs(np.nansum(q1*q2, axis=1))
+    same = np.all(np.isclose(q1, q2), axis=1) | np.all(np.isclose(-q1, q2), axis=1)   # As in the single-pair branch
+    return np.where(same, 0.0, 1.0-abs(np.nansum(q1*q2, axis=1)))
 
 def qcip(q1: np.ndarray, q2: np.ndarray) -> float:
     """
@@ -437,7 +439,8 @@ def qcip(q1: np.ndarray, q2: np.ndarray) -> float:
         return np.arccos(abs(q1@q2))
     q1 /= np.linalg.norm(q1, axis=1)[:, None]
     q2 /= np.linalg.norm(q2, axis=1)[:, None]
-    return np.arccos(abs(np.nansum(q1*q2, axis=1)))
+    same = np.all(np.isclose(q1, q2), axis=1) | np.all(np.isclose(-q1, q2), axis=1)   # As in the single-pair branch
+    return np.where(same, 0.0, np.arccos(np.clip(abs(np.nansum(q1*q2, axis=1)), 0.0, 1.0)))
 
 def qad(q1: np.ndarray, q2: np.ndarray) -> float:
     """
@@ -493,7 +496,8 @@ def qad(q1: np.ndarray, q2: np.ndarray) -> float:
         return np.arccos(2.0*(q1@q2)**2-1.0)
     q1 /= np.linalg.norm(q1, axis=1)[:, None]
     q2 /= np.linalg.norm(q2, axis=1)[:, None]
-    return np.arccos(np.clip(2.0*np.nansum(q1*q2, axis=1)**2-1.0, -1.0, 1.0))
+    same = np.all(np.isclose(q1, q2), axis=1) | np.all(np.isclose(-q1, q2), axis=1)   # As in the single-pair branch
+    return np.where(same, 0.0, np.arccos(np.clip(2.0*np.nansum(q1*q2, axis=1)**2-1.0, -1.0, 1.0)))
 
 def rmse(x: np.ndarray, y: np.ndarray):
     """
